@@ -1,5 +1,7 @@
 package packed
 
+import "sync"
+
 // Harness intrinsics. In the symbolic build these have no bodies (the engine intercepts them);
 // the native replay build swaps this file for zz_verif_rt_native.go.
 
@@ -25,3 +27,4 @@ func vSameArray(a, b []byte) bool
 func vSliceOff(a []byte) int
 func vLocksHeld() int
 func vWithin(inner, outer []byte) bool
+func vMutexFree(mu *sync.Mutex) bool
